@@ -40,11 +40,6 @@ Match(o, v) ==
 MatchSeq(os, vs) == Len(os) = Len(vs) /\ \A k \in 1..Len(os) : Match(os[k], vs[k])
 
 (* the model's stack with every cell that HAS been forced written as the list of its items *)
-RECURSIVE Resolve(_, _)
-Resolve(s, v) == IF IsZ(v) THEN LET c == s.heap[RootOf(s, v.z)]
-                                IN IF c.state = "done" THEN VL([k \in 1..Len(c.acc) |-> Resolve(s, c.acc[k])]) ELSE v
-                 ELSE IF IsL(v) THEN VL([k \in 1..Len(v.l) |-> Resolve(s, v.l[k])])
-                 ELSE v
 RStk(s) == [k \in 1..Len(Stk(s)) |-> Resolve(s, Stk(s)[k])]
 LiveZ(s) == \E k \in 1..Len(Stk(s)) : ZIn(Resolve(s, Stk(s)[k]))
 
